@@ -115,8 +115,12 @@ class Report:
             print(f"[floor] {what}: bound {found} (floor {minimum})")
         replay_dir = os.path.join(VERIF, "evidence", "replay")
         code = 0
+        by_id = {}
         for kf in self.known_hits:
-            print(f"KNOWN-FINDING: property={self.prop} {kf['rule']} at {kf['function']} [{kf['slot']}]: {kf['detail']}")
+            by_id.setdefault((kf.get("finding", ""), kf["rule"], kf["function"], kf["slot"]), []).append(kf)
+        for (fid, rule, fn, slot), hits in by_id.items():
+            print(f"KNOWN-FINDING: property={self.prop} {fid} {rule} at {fn} [{slot}]: {hits[0]['detail']} "
+                  f"({len(hits)} instance(s), e.g. {hits[0].get('extracted', '')})")
         broken = [(w, f, m) for w, f, m in self.floors if f < m]
         if broken and not self.violations:
             # a rule that bound fewer instances than confirmed by hand would pass vacuously: analysis-broken
